@@ -408,7 +408,7 @@ func (e *descEnv) holdsAny(b *ssa.BasicBlock, match func(cfact) bool) bool {
 }
 
 func c20Conditions(p *load.Prog, r *oblig.Run) {
-	r.Rule("R20.m", "every warning is built only on paths on which its documented condition was established, over the people/dates the warning is built with", 9)
+	r.Rule("R20.m", "every warning is built only on paths on which its documented condition was established, over the people/dates the warning is built with", 12)
 	r.Rule("R20.n", "no test other than the documented condition and the reviewed auxiliary tests (validity, nil, error, accuracy, duplicates) stands in front of a warning site", 9)
 
 	type req struct {
@@ -454,8 +454,35 @@ func c20Conditions(p *load.Prog, r *oblig.Run) {
 				}
 			}
 			return false
-		}}},
+		}},
+			{"the birth date of the named child is a parsed date (an unparsable date is the zero time, which is before everything)", func(f cfact, a []string) bool {
+				for _, c := range birthOf(a[1]) {
+					if f.val && f.atom == "DateNode.IsValid("+c+")" {
+						return true
+					}
+				}
+				return false
+			}},
+			{"the birth date of the named parent is a parsed date", func(f cfact, a []string) bool {
+				for _, c := range birthOf(a[0]) {
+					if f.val && f.atom == "DateNode.IsValid("+c+")" {
+						return true
+					}
+				}
+				return false
+			}},
+		},
 		"NewSiblingsBornTooCloseWarning": {
+			{"the distance between the two named births could be computed (both dates parsed: no error from Sub)", func(f cfact, a []string) bool {
+				for _, x := range birthOf(a[0]) {
+					for _, y := range birthOf(a[1]) {
+						if f.val && f.atom == "DateNode.Sub("+x+","+y+")#2==nil" {
+							return true
+						}
+					}
+				}
+				return false
+			}},
 			{"the smallest distance between the two named births is not under two days", func(f cfact, a []string) bool {
 				for _, s := range subOf(a, 0) {
 					if f.atom == s+"<"+twoDays && !f.val {
@@ -496,7 +523,14 @@ func c20Conditions(p *load.Prog, r *oblig.Run) {
 			cmp := "DateRange.Compare(" + a[1] + "," + a[3] + ")"
 			x, y := cmp, entirelyBefore
 			return f.val && (f.atom == x+"=="+y || f.atom == y+"=="+x) && a[1] != a[3]
-		}}},
+		}},
+			{"the date of the later-group event is a parsed date", func(f cfact, a []string) bool {
+				return f.val && "DateNode.DateRange("+strings.TrimSuffix(strings.TrimPrefix(f.atom, "DateNode.IsValid("), ")")+")" == a[1]
+			}},
+			{"the date of the earlier-group event is a parsed date", func(f cfact, a []string) bool {
+				return f.val && "DateNode.DateRange("+strings.TrimSuffix(strings.TrimPrefix(f.atom, "DateNode.IsValid("), ")")+")" == a[3]
+			}},
+		},
 		"NewMarriedOutOfRangeWarning": {{"the age the warning prints is under DefaultMinMarriageAge (16) and known for 'young', above DefaultMaxMarriageAge (100) for 'old'", func(f cfact, a []string) bool {
 			switch a[3] {
 			case `"young"`:
